@@ -192,3 +192,37 @@ func Harness_C03_content_round_trip() {
 	}
 	vm.Assert("C03.locks_free", v.Env.LocksFree())
 }
+
+// Harness_C03_highly_compressible_content: 16384 zero bytes under a codec that squeezes them into a stream of a few
+// bytes (ratio beyond 1000:1): size and content still round-trip, through the filesystem and through Restore.
+func Harness_C03_highly_compressible_content() {
+	pipes := config.PipeConfig{Compression: []string{config.CompressionFormatZStandardKey, config.CompressionFormatBzip2Key}[vm.Choice("compression", 2)]}
+	v := verifNewFS(pipes, false, true)
+	v.Env.Tape.Exists = false
+	_, ierr := v.FS.Initialize("/", os.ModePerm)
+	vm.Assert("C03.compressible_initialize_ok", ierr == nil)
+	if ierr != nil {
+		return
+	}
+	const l = 16384 // (256 copy chunks of zeros; the stream is 12 or 13 bytes long)
+	content := make([]byte, l)
+	h, cerr := v.FS.Create("/zeros")
+	vm.Assert("C03.compressible_create_ok", cerr == nil)
+	if cerr != nil {
+		return
+	}
+	n, werr := h.Write(content)
+	vm.Assert("C03.compressible_write_ok", werr == nil && n == l)
+	vm.Assert("C03.compressible_close_ok", h.Close() == nil)
+	st, serr := v.FS.Stat("/zeros")
+	vm.Assert("C03.compressible_size", serr == nil && st.Size() == l)
+	sink := &c03Sink{}
+	rerr := v.Env.ReadOps.Restore(
+		func(path string, mode fs.FileMode) (io.WriteCloser, error) { return sink, nil },
+		func(path string, mode fs.FileMode) error { return nil },
+		"/zeros", "/out", true,
+	)
+	vm.Assert("C03.compressible_restore_ok", rerr == nil)
+	vm.Assert("C03.compressible_restore_delivers_everything", len(sink.data) == l)
+	vm.Assert("C03.compressible_stream_is_short", v.Env.Tape.LastMember() != nil && v.Env.Tape.LastMember().Size < 64)
+}
